@@ -20,12 +20,15 @@ mod __verif_c16_trig {
     // model of get_next_time for Hour(1): the next grid point strictly after its argument
     fn m_next(current: DateTime<Local>, _i: TimeTriggerInterval, _m: bool) -> DateTime<Local> { at(idx(&current) + 1) }
     // model of TimeTrigger::new: schedules from the clock reading at the time it is called
+    // never used (max_random_delay is 0 in this harness); keeps the thread-local generator out of the compiled code
+    fn m_rng() -> rand::rngs::ThreadRng { unsafe { std::mem::zeroed() } }
     fn m_new(config: TimeTriggerConfig) -> TimeTrigger { TimeTrigger { config, next_roll_time: RwLock::new(at(unsafe { NOW } + 1)) } }
     #[kani::proof]
     #[kani::unwind(8)]
     #[kani::stub(chrono::Local::now, m_now)]
     #[kani::stub(TimeTrigger::new, m_new)]
     #[kani::stub(TimeTrigger::get_next_time, m_next)]
+    #[kani::stub(rand::thread_rng, m_rng)]
     fn c16_trigger_twin() {
         let now: usize = kani::any(); kani::assume(now <= 4);
         let sched: usize = kani::any(); kani::assume(sched <= 4);
